@@ -18,11 +18,11 @@ import (
 // Driver is one process running the extracted Coq model.
 type Driver struct {
 	oracle func(s string) (string, bool) // answer to an oracle question: (result, failed)
-	cmd   *exec.Cmd
-	in    io.WriteCloser
-	out   *bufio.Reader
-	known map[string]bool // cfg / profile ids already defined in this process
-	dead  bool
+	cmd    *exec.Cmd
+	in     io.WriteCloser
+	out    *bufio.Reader
+	known  map[string]bool // cfg / profile ids already defined in this process
+	dead   bool
 }
 
 var rootDir = "/verif"
